@@ -7,6 +7,8 @@ from ..values import Arr, Unsupported, simplify_scalar, to_pw
 from .comm import Comm, WIDTH, transfer_records, view_window
 from .traces import coupling_traces
 
+CASE_SPLIT = "decisions"     # branches on inputs that the admissible domain does not decide are analysed both ways
+
 
 def same_view(a, b):
     return isinstance(a, Arr) and isinstance(b, Arr) and a.same_cells(b)
